@@ -226,7 +226,7 @@ def isect_nontrivial(c):
 # ------------------------------------------------------------------------------------------- tangent / polar / dual
 @st.composite
 def tpd_case(draw, tier="quick"):
-    what = draw(st.sampled_from(["tangent_at", "tangent_from_outside", "polar", "dual_generic", "dual_class", "is_tangent_class", "tangency_after_move", "complex_tangent_class"]))
+    what = draw(st.sampled_from(["tangent_at", "tangent_from_outside", "polar", "dual_generic", "dual_class", "is_tangent_class", "tangency_after_move", "complex_tangent_class", "tangent_at_infinity"]))
     d = 2 if what in ("tangent_from_outside", "polar") else draw(st.sampled_from([2, 3]))
     return {"d": d, "what": what, "sig": draw(st.sampled_from(SIGS[d][:1] + SIGS[d][2:] if d == 2 else SIGS[d][:2])), "n": draw(Z.params(9)), "i": draw(st.integers(0, 5)),
             "p": draw(C.hpoint(d, 5)), "q": draw(C.hpoint(d, 5)), "cls": draw(st.sampled_from(["Circle", "Sphere2", "Sphere3"] if what in ("is_tangent_class", "tangency_after_move", "complex_tangent_class") else ["Quadric", "Conic", "Circle", "Ellipse", "Sphere2", "Sphere3", "QuadricCollection"])),
@@ -237,6 +237,52 @@ def run_tpd(c):
     d, what = c["d"], c["what"]
     n = d + 1
     ck = Checker()
+    if what == "tangent_at_infinity":
+        # points at infinity of a quadric that is not centred at the origin: the tangent there is the asymptotic line / plane through
+        # the centre (hyperbola, one-sheeted hyperboloid, cone), the line at infinity for the point at infinity of a parabola
+        ctr = np.array(c["c"], float)
+        rr = float(c["r"]) if c["r"] >= 0.5 else 1.0
+        scl = C.scale_value(c["s"])
+        kind = ["hyperbola", "parabola", "hyperboloid", "cone"][c["i"] % 4] if d == 3 else ["hyperbola", "parabola"][c["i"] % 2]
+        if kind == "hyperbola":
+            cx, cy = ctr[:2]
+            A = np.array([[1.0, 0, -cx], [0, -1.0, cy], [-cx, cy, cx * cx - cy * cy - rr * rr]])
+            dirs = [(1, 1), (1, -1), (-2, 2)]
+            dv = np.array(dirs[c["u"] % 3], float)
+            at = np.append(dv, 0.0)
+            want = np.array([dv[0], -dv[1], -(dv[0] * cx - dv[1] * cy)])
+            Q = Conic(A * scl)
+        elif kind == "parabola":
+            cx, cy = ctr[:2]
+            A = np.array([[1.0, 0, -cx], [0, 0, -0.5], [-cx, -0.5, cx * cx + cy]])  # (x - cx)^2 = y - cy
+            at = np.array([0.0, 1.0 if c["u"] % 2 else -2.0, 0.0])
+            want = np.array([0.0, 0.0, 1.0])
+            Q = Conic(A * scl)
+        else:
+            cx, cy, cz = ctr
+            k0 = 0.0 if kind == "cone" else rr * rr
+            A = np.array([[1.0, 0, 0, -cx], [0, 1.0, 0, -cy], [0, 0, -1.0, cz], [-cx, -cy, cz, cx * cx + cy * cy - cz * cz - k0]])
+            dirs = [(3, 4, 5), (5, 12, 13), (0, 1, 1), (1, 0, -1), (4, -3, 5), (-3, -4, 5)]
+            dv = np.array(dirs[c["u"] % 6], float)
+            at = np.append(dv, 0.0) * (2.0 if c["truth"] else -1.0)
+            want = np.array([dv[0], dv[1], -dv[2], -(dv[0] * cx + dv[1] * cy - dv[2] * cz)])
+            Q = Quadric(A * scl)
+        on, f = call(f"contains:{kind}:point-at-infinity", Q.contains, Point(at))
+        if f:
+            return [f]
+        if not ck.check(bool(on), f"contains:{kind}:point-at-infinity-of-the-quadric", at.tolist()):
+            return ck.result()
+        T, f = call(f"tangent:{kind}:at-a-point-at-infinity", Q.tangent, Point(at))
+        if f:
+            return [f]
+        ck.check(np.asarray(T.array).shape == want.shape and C.peq_all(np.asarray(T.array), want, 1, 1e-9), f"tangent:{kind}:at-a-point-at-infinity:value", (np.asarray(T.array).tolist(), want.tolist()))
+        if kind != "cone":
+            rt, f = call(f"is_tangent:{kind}:asymptotic", Q.is_tangent, T)
+            if f:
+                ck.add(f)
+            else:
+                ck.check(bool(rt), f"is_tangent:{kind}:tangent-at-a-point-at-infinity")
+        return ck.result()
     if what in ("tangent_at", "tangent_from_outside", "polar", "dual_generic"):
         sig = c["sig"]
         S, adjN = quadric_matrix(c["n"], sig, n)
